@@ -1,4 +1,6 @@
 import GmQuic.Lemmas.ParamsInv
+import GmQuic.Lemmas.ParamsComplete
+import GmQuic.Props.C05.Params
 /-!
 C18 — peer transport parameters are validated and bound to on-wire connection IDs.
 
@@ -119,6 +121,81 @@ theorem accepted_streams_within_limit (sender : Role) (buf : Bytes) (m : PMap) (
 example : parse .client [0x08, 0x01, 0x05, 0x0f, 0x01, 0xaa] = some [(15, .cid [0xaa]), (8, .varint 5)] ∧
     getVarint [(15, .cid [0xaa]), (8, .varint 5)] 8 = some 5 := by decide
 example : parse .client [0x08, 0x08, 0xd0, 0, 0, 0, 0, 0, 0, 0, 0x0f, 0x01, 0xaa] = none := by decide   -- 2^60 refused
+
+/-! ## 2b. `parse_from_bytes` is COMPLETE: every legal encoded parameter set is accepted
+
+The encoder is C05's model of `put_parameters` (`Model/ParamsEnc.lean`: `putParams`, for the iteration order given
+by the list); the decoder is `parse`, unchanged.  "Legal" is the RFC table of `Spec/Rfc9000Params.lean`. -/
+
+/-- A parameter set a peer of role `sender` may send: one binding per id, every binding legal per RFC 9000 §18.2
+for that role (known id, role, type, range) and a value the wire format can carry (`wfVal`: integers < 2^62,
+cid ≤ 20 bytes, token = 16 bytes, well-formed preferred_address image), the mandatory parameters of §7.3 present. -/
+def LegalSet (sender : Role) (ps : PMap) : Prop :=
+  distinctIds ps = true ∧ (∀ e ∈ ps, legal sender e.1 e.2 = true ∧ wfVal e.2 = true) ∧
+  ∀ id ∈ Spec.mandatory sender, ps.has id = true
+
+/-- legal ⇒ accepted for every (id, value) except `initial_max_streams_{bidi,uni} = 2^60` — the exception of
+`validate_complete_partial` localised to the two ids (2^60 is accepted for every other integer parameter). -/
+theorem validate_complete_except_streams (sender : Role) (id : Nat) (v : PVal)
+    (hx : (id = 8 ∨ id = 9) → v ≠ .varint (2 ^ 60)) :
+    legal sender id v = true → accepts sender id v = true := by
+  intro hl
+  by_cases hv : v = .varint (2 ^ 60)
+  · subst hv
+    have h8 : id ≠ 8 := fun h => hx (Or.inl h) rfl
+    have h9 : id ≠ 9 := fun h => hx (Or.inr h) rfl
+    exact (accepts_two_pow_60 sender id h8 h9).1 hl
+  · by_cases hd : v = .dur (2 ^ 60)
+    · subst hd
+      have h8 : id ≠ 8 := by rintro rfl; revert hl; cases sender <;> decide
+      have h9 : id ≠ 9 := by rintro rfl; revert hl; cases sender <;> decide
+      exact (accepts_two_pow_60 sender id h8 h9).2 hl
+    · exact validate_complete_partial sender id v hv hd hl
+
+example : legal .server 4 (.varint (2 ^ 60)) = true ∧ accepts .server 4 (.varint (2 ^ 60)) = true := by decide
+
+/-- RFC-legal set ⇒ a set `Parameters<R>` can hold and that is complete for the role (C05's `wfSet`). -/
+theorem legalSet_wfSet (sender : Role) (ps : PMap) (h : LegalSet sender ps)
+    (hx : ∀ e ∈ ps, (e.1 = 8 ∨ e.1 = 9) → e.2 ≠ .varint (2 ^ 60)) : wfSet sender ps = true := by
+  obtain ⟨hd, hall, hm⟩ := h
+  simp only [wfSet, Bool.and_eq_true, List.all_eq_true]
+  refine ⟨⟨hd, fun e he => ⟨validate_complete_except_streams sender e.1 e.2 (hx e he) (hall e he).1, (hall e he).2⟩⟩, ?_⟩
+  intro id hid
+  exact hm id (required_sub_mandatory _ _ hid)
+
+/-- "every legal encoded parameter set is accepted" is FALSE as it stands: the legal client set
+{initial_source_connection_id, initial_max_streams_bidi = 2^60} is refused (same root as `validate_complete_fails`). -/
+theorem parse_complete_fails :
+    ¬ (∀ (sender : Role) (ps : PMap), LegalSet sender ps → ∃ ps', parse sender (putParams ps) = some ps') := by
+  intro h
+  have hl : LegalSet .client [(15, .cid [0xaa]), (8, .varint (2 ^ 60))] := by
+    refine ⟨by decide, ?_, by decide⟩
+    intro e he
+    simp only [List.mem_cons, List.mem_nil_iff, or_false] at he
+    rcases he with rfl | rfl <;> decide
+  obtain ⟨ps', hp⟩ := h .client _ hl
+  have : parse .client (putParams [(15, .cid [0xaa]), (8, .varint (2 ^ 60))]) = none := by decide
+  rw [this] at hp; cases hp
+
+/-- **COMPLETENESS of `parse_from_bytes`.**  For every role and every legal parameter set `ps` (any iteration order
+of the sender's map) in which `initial_max_streams_{bidi,uni}` is not the number 2^60, the encoded blob is ACCEPTED
+and the result is `ps` again: literally the list in the order of insertion (`ps.reverse`), hence the same bindings,
+the same stored value for every id, and the same value-or-default seen by `Parameters::get`. -/
+theorem parse_complete_partial (sender : Role) (ps : PMap) (h : LegalSet sender ps)
+    (hx : ∀ e ∈ ps, (e.1 = 8 ∨ e.1 = 9) → e.2 ≠ .varint (2 ^ 60)) :
+    parse sender (putParams ps) = some ps.reverse ∧
+    (∀ e, e ∈ ps.reverse ↔ e ∈ ps) ∧
+    (∀ id, PMap.get? ps.reverse id = PMap.get? ps id) ∧
+    (∀ id, getVal ps.reverse id = getVal ps id) := by
+  refine ⟨parse_put_parameters sender ps (legalSet_wfSet sender ps h hx), fun e => List.mem_reverse,
+    fun id => get?_reverse_distinct ps id h.1, fun id => ?_⟩
+  unfold getVal; rw [get?_reverse_distinct ps id h.1]
+
+/-- non-vacuity: C05's sample sets (every value type; `initial_max_streams_bidi = 2^60 - 1`) are legal -/
+example : LegalSet .server sampleServer ∧ LegalSet .client sampleClient := by
+  refine ⟨⟨by decide, ?_, by decide⟩, ⟨by decide, ?_, by decide⟩⟩ <;> decide
+example : parse .server (putParams sampleServer) = some sampleServer.reverse :=
+  (parse_complete_partial .server sampleServer ⟨by decide, by decide, by decide⟩ (by decide)).1
 
 /-! ## 3. the connection-level object: READY ⇔ received ∧ legal ∧ mandatory ∧ declared cids = observed cids -/
 
